@@ -211,6 +211,10 @@ theorem C12_table_touched_only_by_owner :
     Skeleton.current.clTableSites = 3 ∧ Skeleton.current.clLookupUnderLock = true ∧
     Skeleton.current.clInsertUnderLock = true ∧ Skeleton.current.clDeleteUnderLock = true := by decide
 
+/-- The registration ends WITH the call: The release function `registerClosure` returns runs DEFERRED on every exit path of a closure-carrying call; it only locks, deletes and unlocks — no wait, channel operation or select (checked against the regenerated skeleton) — and the lock it takes is not held while a closure body runs. -/
+theorem C12_closure_release_never_waits :
+    Skeleton.current.clFreeNeverWaits = true ∧ Skeleton.current.clDeleteUnderLock = true := by decide
+
 end Panrpc.Ep
 
 #print axioms Panrpc.Ep.C12_table_is_inflight
@@ -225,3 +229,4 @@ end Panrpc.Ep
 #print axioms Panrpc.Ep.C12_table_touched_only_by_owner
 #print axioms Panrpc.Ep.C12_table_mutex_never_waits_for_a_closure_body
 #print axioms Panrpc.Ep.C02_lock_held_across_closure_blocks_other_calls
+#print axioms Panrpc.Ep.C12_closure_release_never_waits
